@@ -34,7 +34,7 @@ SPEC = {
              "dynamic-field target x B built before or after A's mutation; F46 cases) plus seeded random schemas (2-5 fields, "
              "typed and untyped list/dict with literal, callable or no default, item schemas / config types reused, dynamic "
              "schemas) with 1-5 live configurations and histories of 2-9 (thorough: 2-16) operations, mostly on configuration 0, "
-             "builds interleaved, cross-configuration assignments (cfg_i.x = value read from cfg_j.x, for scalar fields and typed list/dict fields of scalars, followed by in-place mutations on either side) clones (cfg_j.load_tree(cfg_i.to_tree()) and dumps/loads(json), at the root or a sub-configuration, followed by in-place mutations on either side; a 26-case matrix on a schema of the kinds to_tree copies at every depth, plus 120 (thorough: 2000) random histories on it) callable defaults that hand out ONE template object (default=lambda: TEMPLATE, nested list-of-dicts / dict-of-lists, typed and untyped; the template is observed like a constant default and walked for identity), leaves of every option-carrying built-in class (IntField/FloatField bounds, StringField options, PortField, BoolField, UrlField, SecureField best/xor/aes, ChallengeField, BytesField, FilenameField), loads of documents whose secret was written with another method than the field declares (real key file in the private HOME), an instance method on every schema level (root, sub-schema, item schema, config type) that must return the very configuration object it is called on, for every configuration object after every event, rejected operations whose error is attached to a sub-schema key (scalar / string / list / None assigned or loaded where a sub-configuration is declared: root, nested, list item, config type), to a list / dict field, to a list-of-configurations item or to an undeclared key (60-case matrix + ~7% of random operations); EVERY raised error is rendered (str, repr, ref_path, args, traceback.format_exception, cause/context) before the schema snapshots are compared, document loads with includes (IncludeField with startdir None and set, at the root and in nested schemas; cfg.loads of a json document naming include files written into a per-case temp dir, relative names with the process cwd set into the directory and restored afterwards, and absolute names; configuration i from directory a, configuration j from directory b with the same file names and other contents; model: OpLoad of the tree expected from the documentation, computed with the independent deep merge of s_merge.py; the include keys are reset afterwards so no directory name stays in a configuration), and observers (to_tree, dumps(json), asdict, validate, get_all_fields: must change nothing, model = no-op); non-trivial = at least two configurations and at least one operation that did not raise; "
+             "builds interleaved, cross-configuration assignments (cfg_i.x = value read from cfg_j.x, for scalar fields and typed list/dict fields of scalars, followed by in-place mutations on either side) clones (cfg_j.load_tree(cfg_i.to_tree()) and dumps/loads(json), at the root or a sub-configuration, followed by in-place mutations on either side; a 26-case matrix on a schema of the kinds to_tree copies at every depth, plus 120 (thorough: 2000) random histories on it) callable defaults that hand out ONE template object (default=lambda: TEMPLATE, nested list-of-dicts / dict-of-lists, typed and untyped; the template is observed like a constant default and walked for identity), leaves of every option-carrying built-in class (IntField/FloatField bounds, StringField options, PortField, BoolField, UrlField, SecureField best/xor/aes, ChallengeField, BytesField, FilenameField), loads of documents whose secret was written with another method than the field declares (real key file in the private HOME), an instance method on every schema level (root, sub-schema, item schema, config type) that must return the very configuration object it is called on, for every configuration object after every event, rejected operations whose error is attached to a sub-schema key (scalar / string / list / None assigned or loaded where a sub-configuration is declared: root, nested, list item, config type), to a list / dict field, to a list-of-configurations item or to an undeclared key (60-case matrix + ~7% of random operations); EVERY raised error is rendered (str, repr, ref_path, args, traceback.format_exception, cause/context) before the schema snapshots are compared, document loads with includes (IncludeField with startdir None and set, at the root and in nested schemas; cfg.loads of a json document naming include files written into a per-case temp dir, relative names with the process cwd set into the directory and restored afterwards, and absolute names; configuration i from directory a, configuration j from directory b with the same file names and other contents; model: OpLoad of the tree expected from the documentation, computed with the independent deep merge of s_merge.py; the include keys are reset afterwards so no directory name stays in a configuration), leaves with content-carrying options (StringField with unsorted choices, LogLevelField levels, ApplicationModeField modes, bounds, pattern) offered a value they reject by every route (assignment, load_tree, loads(json), append to / item of a typed list or dict of such leaves: model = no-op, so an accepted value is a disagreement); several list / dict fields over ONE item field object / item schema / config type with whole-value assignment between them (same configuration: any shared item type; another configuration: scalar items) followed by in-place mutations, the stored object must not be the object read; dict.update / |= between the proxies of one typed-dict field in two configurations whose values are typed lists / dicts, followed by in-place mutation of the inner containers on either side, and observers (to_tree, dumps(json), asdict, validate, get_all_fields: must change nothing, model = no-op); non-trivial = at least two configurations and at least one operation that did not raise; "
              "distinct = distinct (schema, history). hmerge: 36-case matrix + random map pairs; non-trivial = a shared key"),
     "trusted_base": [KERNEL, "Print Assumptions: closed under the global context (no axioms)", TIE, HARNESS,
                      "modelled, not verified: validation of scalar items is the identity (generators stay well-typed; "
@@ -42,10 +42,13 @@ SPEC = {
                      "are not in the heap model (they point from a configuration to its owner, never to another configuration); "
                      "Field objects are immutable values of the model",
                      "the recursion depth index of copy_val / snap / hcombine (64 in the correspondence runs)"],
-    "assumptions": ["field options: after every event every attribute (__dict__, public and private, containers by identity) of every field "
+    "assumptions": ["field options: after every event every attribute (__dict__, public and private, containers by identity AND by content: deep copy incl. order, regex by pattern text and flags) of every field "
                     "object of the schema at every level is what it was before; no attribute is exempted as a cache",
                     "a bare Field / AnyField whose callable default returns a template object stores that object itself: observed, "
                     "not counted (C13 speaks of typed fields), never generated",
+                    "observed, not counted (caller-made aliasing): A.d = B.d for a typed dict whose values are containers gives A a new "
+                    "proxy holding B's inner containers; a list of configurations assigned to another list field of the same item "
+                    "schema holds the same Config items (the model reproduces that; generated inside one configuration only)",
                     "argument values handed to the library are fresh (the caller does not insert one object twice: DESIGN.md 3.4)",
                     "schema text inside the model (spec_ok): bare Field defaults are scalars or callables; no Config objects "
                     "inside a default (open finding F46)",
